@@ -101,6 +101,7 @@ let run_prog id (cfgs : string) (lines : string list) =
 
 (* ---------- interpretations ---------- *)
 let interp_string (v : n list) : string =
+  if v = [] then "-" else
   join "" (fun h -> match h with N0 -> "F" | Npos XH -> "T" | _ -> "u") v
 let interps_string l = join " " interp_string l
 let handles_string l = sl l
@@ -149,7 +150,7 @@ let audit_string (c : cfg) (st : store) : string =
 type adf_state = { mutable st : store; mutable ac : n list; names : string list; c : cfg }
 
 let run_adf id (lines : string list) =
-  let text = ref "" and sort = ref "none" and cfgs = ref "a1v1" and backend = ref "native" in
+  let text = ref "" and sort = ref "none" and cfgs = ref "a1v1" and backend = ref "native" and unparsed = ref false in
   let acdumps = ref [] and gdumps = ref [] in
   let parse_dump (d : string) : bio_ac =
     match d with
@@ -162,6 +163,7 @@ let run_adf id (lines : string list) =
     match words line with
     | ["text"; h] -> text := unhex h
     | ["text"] -> text := ""
+    | ["unparsed"] -> unparsed := true
     | ["sort"; s] -> sort := s
     | ["cfg"; s] -> cfgs := s
     | ["backend"; b] -> backend := b
@@ -174,7 +176,7 @@ let run_adf id (lines : string list) =
     | [] -> ()
     | _ -> failwith ("bad adf line: " ^ line)) lines;
   let c = cfg_of_string !cfgs in
-  let (ps0, ok) = parse (str_of_string !text) in
+  let (ps0, ok) = if !unparsed then ({ names = []; acs = [] }, true) else parse (str_of_string !text) in
   if not ok then emit id "parse" "ERR"
   else begin
     let ps = if !sort = "lexi" then varsort_lexi ps0 else ps0 in
